@@ -171,6 +171,62 @@ Theorem import_every_entry_from_its_unique_row ds rows v : items_unique ds ->
               /\ (forall r', In r' rows -> r_labels r' = labels_of ds idx -> r' = r).
 Proof. intros Hu E. apply import_accepts_iff in E. destruct E as [Ha ->]. apply place_from_unique_row; assumption. Qed.
 
+(* ---- allow_missing_values: the missing or empty entries become zero, every present entry is still placed under its labels ---- *)
+Record accepted_partial (ds : dimset) (rows : list row) : Prop := {
+  accp_nodup : NoDup (map r_labels rows);
+  accp_known : forall r, In r rows -> known ds (r_labels r) = true
+}.
+
+Theorem import_allow_missing_iff ds rows v :
+  import ds false false true false rows = Ok v <-> accepted_partial ds rows /\ v = place ds rows.
+Proof.
+  unfold import_rows. cbn [orb negb andb].
+  destruct (forallb (fun r => known ds (r_labels r)) rows) eqn:Ek; cbn [negb].
+  2:{ split; [discriminate|]. intros [[_ Hk] _]. exfalso.
+      assert (X : forallb (fun r => known ds (r_labels r)) rows = true) by (apply forallb_forall; exact Hk). congruence. }
+  rewrite forallb_forall in Ek.
+  destruct (has_dup (map r_labels rows)) eqn:Ed.
+  { split; [discriminate|]. intros [[Hn _] _]. rewrite (has_dup_NoDup _ Hn) in Ed. discriminate. }
+  rewrite (placement_loop ds rows _ Ek). split.
+  - intros E. injection E as <-. split; [|reflexivity]. constructor; auto. apply has_dup_false_NoDup. exact Ed.
+  - intros [_ ->]. reflexivity.
+Qed.
+
+Lemma positions_NoDup_partial ds rows : accepted_partial ds rows -> NoDup (map (pos_of ds) rows).
+Proof.
+  intros [Hn Hk]. induction rows as [|r rows IH]; [constructor|]. simpl in *.
+  inversion Hn as [|? ? Hr Hn']; subst. constructor.
+  - intros Hin. apply in_map_iff in Hin. destruct Hin as (r' & E & Hr'). apply Hr.
+    rewrite <- (pos_of_inj ds r' r); [apply in_map; exact Hr' | apply Hk; right; exact Hr' | apply Hk; left; reflexivity | exact E].
+  - apply IH; auto.
+Qed.
+
+Theorem place_partial ds rows : items_unique ds -> accepted_partial ds rows ->
+  length (place ds rows) = size (dshape ds) /\
+  forall idx, Forall2 lt idx (dshape ds) ->
+    (exists r, In r rows /\ r_labels r = labels_of ds idx /\ get rO (dshape ds) (place ds rows) idx = val r)
+    \/ ((forall r, In r rows -> r_labels r <> labels_of ds idx) /\ get rO (dshape ds) (place ds rows) idx = rO).
+Proof.
+  intros Hu Ha. split.
+  { unfold place. rewrite fold_upd_length. apply tab_length. }
+  intros idx Hidx. destruct (nth_all_idx (dshape ds) idx Hidx) as [_ Hlt].
+  pose proof Ha as [Hn Hk].
+  destruct (in_dec Nat.eq_dec (ravel (dshape ds) idx) (map (pos_of ds) rows)) as [Hin|Hout].
+  - left. apply in_map_iff in Hin. destruct Hin as (r & Er & Hr).
+    destruct (known_positions ds _ (Hk r Hr)) as [Hp1 Hp2].
+    assert (Epos : positions ds (r_labels r) = idx) by (apply (ravel_inj (dshape ds)); auto).
+    exists r. split; [exact Hr|]. split; [rewrite <- Hp2, Epos; reflexivity|].
+    unfold get. rewrite <- Er. unfold place.
+    apply (fold_upd_hit R (pos_of ds) val rows _ r rO (positions_NoDup_partial ds rows Ha) Hr).
+    rewrite tab_length. apply pos_of_lt. apply Hk. exact Hr.
+  - right. split.
+    + intros r Hr E. apply Hout. apply in_map_iff. exists r. split; [|exact Hr]. unfold pos_of. rewrite E, positions_labels; auto.
+    + unfold get, place. rewrite (fold_upd_frame R (pos_of ds) val rows).
+      * change (nth (ravel (dshape ds) idx) (tab (dshape ds) (fun _ : list nat => rO)) rO) with (get rO (dshape ds) (tab (dshape ds) (fun _ : list nat => rO)) idx).
+        apply (get_tab R rO (dshape ds) (fun _ => rO) idx Hidx).
+      * intros r Hr E. apply Hout. rewrite <- E. apply in_map. exact Hr.
+Qed.
+
 (* ---- the order of the rows does not matter ---- *)
 Lemma accepted_perm ds rows rows' : Permutation rows rows' -> accepted ds rows -> accepted ds rows'.
 Proof.
